@@ -33,6 +33,8 @@ for d in sorted(glob.glob(os.path.join(ROOT, 'seeded', '*'))):
         rows.append((sid, m0['status'], m0['failed_obligations'] or m0['undecided_units'])); continue
     subprocess.run(['git', '-C', '/repo', 'checkout', '--', '.'], check=True)
     ap = subprocess.run(['git', '-C', '/repo', 'apply', patch], capture_output=True, text=True)
+    if ap.returncode != 0:      # a later fix: commit changed a context line next to the seeded edit -- retry with less context
+        ap = subprocess.run(['git', '-C', '/repo', 'apply', '-C1', patch], capture_output=True, text=True)
     if ap.returncode != 0:
         rows.append((sid, 'patch does not apply to the current tree: ' + ap.stderr.strip()[:200], [])); continue
     res = {}
